@@ -363,7 +363,7 @@ impl<T> State<T> {
             Side::Receiver => self.sender.wake(),
         }
 
-        let was_open = self.open.swap(false, Ordering::SeqCst);
+        self.open.store(false, Ordering::SeqCst);
 
         // make sure the peer is notified before fully dropping the contents
         match side {
@@ -371,7 +371,9 @@ impl<T> State<T> {
             Side::Receiver => self.sender.wake(),
         }
 
-        if !was_open {
+        // The side that *finishes* closing last frees the allocation. This is the last access
+        // of the losing side to the shared header, so the winner cannot free it under our feet.
+        if self.released.swap(true, Ordering::AcqRel) {
             unsafe {
                 // Safety: we synchronization closing between the two peers through atomic
                 // variables. At this point both sides have agreed on its final state.
@@ -485,6 +487,7 @@ pub struct Header<T> {
     head: CachePadded<AtomicUsize>,
     tail: CachePadded<AtomicUsize>,
     open: CachePadded<AtomicBool>,
+    released: AtomicBool,
     pub receiver: AtomicWaker,
     pub sender: AtomicWaker,
     data: PhantomData<T>,
@@ -526,6 +529,7 @@ impl<T> Header<T> {
             sender: AtomicWaker::new(),
             receiver: AtomicWaker::new(),
             open: CachePadded::new(AtomicBool::new(true)),
+            released: AtomicBool::new(false),
             data: PhantomData,
         }
     }
